@@ -157,6 +157,23 @@ pub fn run(ctx: &'static Ctx) {
     for i in 0..64 {
         vals.push(splitmix(ctx.seed.wrapping_mul(1000).wrapping_add(i)));
     }
+    // lane products: every combination of {00, 01, 80, ff} over the eight bytes (65 536 values), and every pair
+    // (high dword, low dword) over a set holding the boundaries and an interior point of every encoding class
+    for m in 0..(1u32 << 16) {
+        let mut v = 0u64;
+        for k in 0..8 {
+            v |= ([0x00u64, 0x01, 0x80, 0xff][((m >> (2 * k)) & 3) as usize]) << (8 * k);
+        }
+        vals.push(v);
+    }
+    {
+        let half: [u64; 22] = [0, 1, 2, 0x7f, 0x80, 0xfe, 0xff, 0x100, 0x101, 0x1000, 0x7fff, 0x8000, 0xfffe, 0xffff, 0x1_0000, 0x1_0001, 0x12_3456, 0x7fff_ffff, 0x8000_0000, 0xffff_0000, 0xffff_fffe, 0xffff_ffff];
+        for hi in half {
+            for lo in half {
+                vals.push(hi << 32 | lo);
+            }
+        }
+    }
     if !ctx.quick() {
         let mut edge: Vec<u64> = vec![];
         for b in [0u64, 1, 2, 0xff, 0x100, 0x101, 0xfffe, 0xffff, 0x7fff, 0x8000] {
@@ -177,7 +194,7 @@ pub fn run(ctx: &'static Ctx) {
     for v in &vals {
         ctx.distinct(*v);
     }
-    ctx.engine("E3.u64-structured", json!({"values": vals.len(), "set": "width boundaries +-2, single bits and their complements, byte fills, every b<<8k, seed-derived; thorough adds x<<32|y over 16-bit boundary set"}));
+    ctx.engine("E3.u64-structured", json!({"values": vals.len(), "set": "width boundaries +-2, single bits and their complements, byte fills, every b<<8k, seed-derived, every combination of {00,01,80,ff} over the 8 bytes, every (high dword, low dword) pair over a 22-value set; thorough adds x<<32|y over 16-bit boundary set"}));
 
     // ---- embedded operands: buffer sizes and package elements
     let max = if ctx.quick() { 70_000usize } else { 70_000 };
